@@ -70,7 +70,9 @@ func (rt *runtime) cmplFunctionDeclaration(list []*nodeFunctionLiteral) {
 
 	for _, function := range list {
 		name := function.name
-		value := rt.cmplEvaluateNodeExpression(function)
+		// A function declaration binds its name in the variable environment
+		// only; there is no scope of its own for the name (ES5 13).
+		value := objectValue(rt.newNodeFunction(function, rt.scope.lexical))
 		if !stash.hasBinding(name) {
 			stash.createBinding(name, eval, value)
 		} else {
